@@ -849,9 +849,27 @@ func readMessageBodyLength(meta []byte) (int64, error) {
 	if uint64(rootOff) >= uint64(len(meta)) {
 		return 0, fmt.Errorf("flatbuffer root out of range")
 	}
-	// At rootOff is a soffset_t (int32) pointing back to the vtable.
-	tablePos := int(rootOff)
-	if tablePos+4 > len(meta) {
+	// Field order in Message: version (0), header_type (1), header (2),
+	// bodyLength (3), custom_metadata (4). bodyLength field index = 3,
+	// vtable slot offset = 4 + 2*3 = 10.
+	const bodyLengthSlot = 4 + 2*3
+	abs, err := fbFieldPos(meta, int(rootOff), bodyLengthSlot)
+	if err != nil || abs == 0 {
+		// Field absent → default 0.
+		return 0, err
+	}
+	if abs+8 > len(meta) {
+		return 0, fmt.Errorf("flatbuffer body field out of range")
+	}
+	return int64(binary.LittleEndian.Uint64(meta[abs : abs+8])), nil
+}
+
+// fbFieldPos returns the absolute position of the value that the flatbuffer
+// table at tablePos stores in vtable slot `slot`, or 0 when the field is
+// absent (flatbuffers' Table.Offset).
+func fbFieldPos(meta []byte, tablePos, slot int) (int, error) {
+	// At tablePos is a soffset_t (int32) pointing back to the vtable.
+	if tablePos < 0 || tablePos+4 > len(meta) {
 		return 0, fmt.Errorf("flatbuffer table truncated")
 	}
 	vtableSOff := int32(binary.LittleEndian.Uint32(meta[tablePos : tablePos+4]))
@@ -860,26 +878,17 @@ func readMessageBodyLength(meta []byte) (int64, error) {
 		return 0, fmt.Errorf("flatbuffer vtable out of range")
 	}
 	vtableSize := int(binary.LittleEndian.Uint16(meta[vtablePos : vtablePos+2]))
-	// Field order in Message: version (0), header_type (1), header (2),
-	// bodyLength (3), custom_metadata (4). bodyLength field index = 3,
-	// vtable slot offset = 4 + 2*3 = 10.
-	const bodyLengthSlot = 4 + 2*3
-	if bodyLengthSlot >= vtableSize {
-		// Field absent → default 0.
+	if slot >= vtableSize {
 		return 0, nil
 	}
-	if vtablePos+bodyLengthSlot+2 > len(meta) {
+	if vtablePos+slot+2 > len(meta) {
 		return 0, fmt.Errorf("flatbuffer vtable truncated")
 	}
-	fieldOff := int(binary.LittleEndian.Uint16(meta[vtablePos+bodyLengthSlot : vtablePos+bodyLengthSlot+2]))
+	fieldOff := int(binary.LittleEndian.Uint16(meta[vtablePos+slot : vtablePos+slot+2]))
 	if fieldOff == 0 {
 		return 0, nil
 	}
-	abs := tablePos + fieldOff
-	if abs+8 > len(meta) {
-		return 0, fmt.Errorf("flatbuffer body field out of range")
-	}
-	return int64(binary.LittleEndian.Uint64(meta[abs : abs+8])), nil
+	return tablePos + fieldOff, nil
 }
 
 // ----------------------------------------------------------------------
